@@ -16,6 +16,7 @@ Local Open Scope Z_scope.
 Inductive hop :=
 | HNew (c : Z) | HNewData (c : Z) (l : list elt) | HAdd (x : elt) | HPop | HRemove (i : Z) | HX (p : Z)
 | HPeek (i : Z) | HFront | HSet (l : list elt) | HReorder (c : Z) | HClear | HLen | HIsEmpty | HEach (k : nat)
+| HUpdate (b : bool)
 | HBad.
 
 Inductive hres :=
@@ -46,7 +47,7 @@ Definition to_op (t : list (Z * Z)) (h : hop) : option (op elt) :=
   | HLen => Some OLen
   | HIsEmpty => Some OIsEmpty
   | HEach k => Some (OEach k)
-  | HBad => None
+  | HUpdate _ | HBad => None
   end.
 
 Definition render (h : hop) (r : out elt) : hres :=
@@ -61,22 +62,28 @@ Definition render (h : hop) (r : out elt) : hres :=
   | RList l => RL l
   end.
 
-Fixpoint hrun (v : variant) (q : queue elt) (t : list (Z * Z)) (hs : list hop) : list hout :=
+(* rep: is an update function installed?  (New/NewWithData of the harness install it; while it
+   is removed the calls of the move log are not delivered) *)
+Fixpoint hrun (v : variant) (q : queue elt) (t : list (Z * Z)) (rep : bool) (hs : list hop) : list hout :=
   match hs with
   | [] => []
+  | HUpdate b :: r => (RU, [], data q) :: hrun v q t b r
   | h :: r =>
+    let rep := match h with HNew _ | HNewData _ _ => true | _ => rep end in
     match to_op t h with
-    | None => (RQ, [], []) :: hrun v q t r
+    | None => (RQ, [], []) :: hrun v q t rep r
     | Some o =>
       match step elt v q o with
-      | Ok (q', (res, mv)) => (render h res, mv, data q') :: hrun v q' (note t mv) r
+      | Ok (q', (res, mv)) =>
+        let mv := if rep then mv else [] in
+        (render h res, mv, data q') :: hrun v q' (note t mv) rep r
       | IndexPanic => [(RPanicIndex, [], [])]
       | OutOfFuel => [(RFuel, [], [])]
       end
     end
   end.
 
-Definition hrun0 (hs : list hop) : list hout := hrun current_variant (q_new 0) [] hs.
+Definition hrun0 (hs : list hop) : list hout := hrun current_variant (q_new 0) [] true hs.
 Definition hsort (c : Z) (l : list elt) : option (list elt) :=
   match q_sort current_variant c l with Ok r => Some r | _ => None end.
 
@@ -107,7 +114,7 @@ Fixpoint pow2b (fuel : nat) (n : Z) : bool :=
   | S f => if n =? 1 then true else if (n <=? 0) || Z.odd n then false else pow2b f (n / 2)
   end.
 
-Record cst := { held : list elt; code : Z; prev : list elt; taint : bool; post : list (Z * Z); tracked : list Z }.
+Record cst := { held : list elt; code : Z; prev : list elt; taint : bool; post : list (Z * Z); tracked : list Z; inst : bool }.
 
 Definition res_is_val (r : hres) (x : elt) : bool := match r with RV y => elt_eqb x y | _ => false end.
 Definition is_RU (r : hres) : bool := match r with RU => true | _ => false end.
@@ -146,19 +153,22 @@ Definition check_op (c06 : bool) (s : cst) (h : hop) (o : hout) : option cst :=
   let '(r, mv, lay) := o in
   let n := Z.of_nat (length (prev s)) in
   let t' := note (post s) mv in
+  let inst' := match h with HNew _ | HNewData _ _ => true | HUpdate b => b | _ => inst s end in
   let fin (held' : list elt) (code' : Z) (reset : bool) (tracked' : list Z) (tnt : bool) : option cst :=
     let tnt' := if reset || (Z.of_nat (length lay) <=? 1) then false else tnt in
-    if bag_eqb lay held' &&
+    let tracked' := if inst' then tracked' else [] in
+    if bag_eqb lay held' && (inst' || match mv with [] => true | _ => false end) &&
        (negb c06 ||
         forallb (fun ix : Z * elt =>
                    if existsb (Z.eqb (snd (snd ix))) tracked'
                    then match lookup (snd (snd ix)) t' with Some j => j =? fst ix | None => false end
                    else true)
                 (combine (map Z.of_nat (seq 0 (length lay))) lay))
-    then Some {| held := held'; code := code'; prev := lay; taint := tnt'; post := t'; tracked := tracked' |}
+    then Some {| held := held'; code := code'; prev := lay; taint := tnt'; post := t'; tracked := tracked'; inst := inst' |}
     else None in
   match h with
   | HBad => if is_RQ r then Some s else None
+  | HUpdate _ => if is_RU r then fin (held s) (code s) false (tracked s) (taint s) else None
   | HNew c => if is_RU r then fin [] c true [] false else None
   | HNewData c l => if is_RU r then fin l c true [] false else None
   | HAdd x =>
@@ -166,7 +176,7 @@ Definition check_op (c06 : bool) (s : cst) (h : hop) (o : hout) : option cst :=
     | RI i =>
       match nth_e lay i with
       | Some y =>
-        if elt_eqb x y && (negb c06 || match lookup (snd x) t' with Some j => j =? i | None => false end)
+        if elt_eqb x y && (negb c06 || negb inst' || match lookup (snd x) t' with Some j => j =? i | None => false end)
         then fin (x :: held s) (code s) false (snd x :: tracked s) (taint s || add_trigger s x)
         else None
       | None => None
@@ -245,7 +255,7 @@ Fixpoint check_from (c06 : bool) (s : cst) (hs : list hop) (os : list hout) : bo
   end.
 
 Definition check (c06 : bool) (hs : list hop) (os : list hout) : bool :=
-  check_from c06 {| held := []; code := 0; prev := []; taint := false; post := []; tracked := [] |} hs os.
+  check_from c06 {| held := []; code := 0; prev := []; taint := false; post := []; tracked := []; inst := true |} hs os.
 
 (* heapq.Sort: a sorted permutation *)
 Fixpoint sortedb (c : Z) (l : list elt) : bool :=
